@@ -136,10 +136,77 @@ def _exec_relabel_purge(scn, res, stats, viols):
     return res
 
 
+def _gen_empty_purge(rng):
+    """An app deletes all of its models while still installed (its stored
+    signature entry becomes empty) and leaves INSTALLED_APPS afterwards:
+    the purge has no table to drop but still has to remove the entry."""
+    intf = lambda n: {'name': n, 'kind': 'Integer', 'attrs': {'null': True}}
+    va = [{'name': 'Item', 'fields': [intf('a')], 'meta': {}}]
+    names = ['Node', 'Part'][:rng.choice([1, 2])]
+    vb = [{'name': n, 'fields': [intf('n')], 'meta': {}} for n in names]
+    project = {'apps': {
+        'va': {'v0': va, 'steps': [{'evos': []}]},
+        'vb': {'v0': vb, 'steps': [{'evos': [{'label': 'drop_all', 'mutations': [
+            {'op': 'DeleteModel', 'model': n} for n in names]}]}]}},
+        'order': rng.choice([['va', 'vb'], ['vb', 'va']]),
+        'databases': ['default']}
+    return {'kind': 'empty_purge', 'project': project, 'removed': ['vb'],
+            'rows': {'va_item': [{'id': 1, 'a': 3}]},
+            'pending_too': rng.random() < 0.3}
+
+
+def _exec_empty_purge(scn, res, stats, viols):
+    P = scn['project']
+    sts = proj.states(P)
+    detail = dict(kind='empty_purge', removed=['vb'], tables=['va_item'])
+    with runner.Workspace() as ws:
+        r0 = common.install(ws, P, sts, 0, scn['rows'])
+        if r0.status != 'ok':
+            raise runner.HarnessError('empty_purge install: %s' % r0.status)
+        proj.deploy(ws, P, 1, sts)
+        r1 = ws.run('evolve', {'execute': True})
+        s1 = snapshot.snapshot(ws)
+        res['shape'] = spec.canon(['empty_purge', P['order'],
+                                   sorted(m['name'] for m in
+                                          P['apps']['vb']['v0'])])
+        stats['empty_purge_scenarios'] = 1
+        if r1.status != 'ok' or any(
+                t.startswith('vb_') for t in s1['tables']):
+            viols.append(violation('C15.delete_failed', status=r1.status,
+                                   msg=((r1.exit or {}).get('msg') or '')[
+                                       :200], **detail))
+            res['runs'] = ws.nruns
+            return res
+        proj.deploy(ws, P, 1, sts, apps=['va'], clean=True)
+        r2 = ws.run('evolve', {'execute': True, 'purge': True})
+        s2 = snapshot.snapshot(ws)
+        res['runs'] = ws.nruns
+        if r2.status != 'ok':
+            viols.append(violation(
+                'C15.purge_failed', status=r2.status,
+                msg=((r2.exit or {}).get('msg') or '')[:200], **detail))
+            return res
+        a2 = c03.stored_apps(s2) or {}
+        if 'vb' in a2:
+            viols.append(violation('C15.sig_entries', still='vb',
+                                   out=r2.stdout()[-120:], **detail))
+        if 'va' not in a2:
+            viols.append(violation('C15.sig_entries', missing='va',
+                                   **detail))
+        for d in common.bystander_diffs(s1, s2, ['va_item']):
+            viols.append(violation('C15.bystander_changed', **dict(
+                detail, diff=d)))
+        res['nontrivial'] = True
+        res['sample'] = {'kind': 'empty_purge', 'order': P['order']}
+    return res
+
+
 def generate(seed, index, tier):
     rng = scenarios.derive_rng(seed, ID, index)
     if index % 10 == 9:
         return _gen_relabel_purge(rng)
+    if index % 20 == 8:
+        return _gen_empty_purge(rng)
     cfg = gen.default_config()
     cfg['relations'] = True
     cfg['m2m'] = rng.random() < 0.7
@@ -231,6 +298,8 @@ def execute(scn):
            'shape': None, 'runs': 0}
     if scn['kind'] == 'relabel_purge':
         return _exec_relabel_purge(scn, res, stats, viols)
+    if scn['kind'] == 'empty_purge':
+        return _exec_empty_purge(scn, res, stats, viols)
     st0 = sts[0]
     topo = []
     for a in apps:
@@ -370,7 +439,7 @@ def execute(scn):
 
 def shrinks(scn):
     P = scn['project']
-    if scn['kind'] == 'relabel_purge':
+    if scn['kind'] in ('relabel_purge', 'empty_purge'):
         return
     if scn.get('fault'):
         c = copy.deepcopy(scn)
